@@ -69,6 +69,10 @@ var c08Fixed = []string{
 	`Ints[1:3]`, `S[1:3] + T[:2]`, `PIn?.P?.N`, `NilP?.N`, `NilP.N`, `Ints[10]`, `I / (J + 4)`, `I % (J + 4)`,
 	`V1 + V2`, `VAdd(V1, V2)`, `B ? Ints : Strs`, `F * 2 + I ** 2`, `not B or I < J and S != T`, `SumInts()`,
 	`"N" in In and "zz" in M`, `Inners[1].Tags`, `Any`, `len(Strs) + len(S) + len(M)`,
+	// runs that exhaust the memory budget at different positions (the refusal comes before any allocation), and
+	// failing runs of multi-line sources: every goroutine must get ITS error - message, position and snippet
+	`len(I..J + 2000000)`, `[I, J, 1..(J + 3000000)]`, `{a: I, b: 0..(I + 1000000)}`, `I + len(map(0..(J + 5000000), {#}))`,
+	"I +\n J +\n Ints[10]", "[I,\n S,\n  NilP.N]", "{a: I,\n\n b: 1..(J + 2000000)}", "S + T +\n  Greet(T) +\n   Strs[7]",
 }
 
 type c08Prog struct {
